@@ -3,7 +3,8 @@
   demo passes without the patch, fails with it; the repository's own suite gives the baseline summary with it.
 Confirmed seeds are moved from seeded/_incoming_<id>/<x>/ to seeded/<id>-<x>/ with a meta.json."""
 import json, os, re, shutil, subprocess, sys, time
-VERIF = "/verif"; REPO = "/repo"; WT = "/tmp/confirm/wt"; TARGET = "/tmp/confirm/target"
+VERIF = "/verif"; REPO = "/repo"
+CDIR = os.environ.get("CONFIRM_DIR", "/tmp/confirm"); WT = CDIR + "/wt"; TARGET = CDIR + "/target"
 BASE = {"geo-lib": (772, 3), "geo-doc": (166, 1)}
 
 def sh(cmd, cwd=None, timeout=3600):
@@ -19,7 +20,7 @@ def suite_summary(out):
 
 def main():
     only = sys.argv[1:]
-    os.makedirs("/tmp/confirm", exist_ok=True)
+    os.makedirs(CDIR, exist_ok=True)
     if os.path.exists(WT):
         sh("git -C %s worktree remove --force %s" % (REPO, WT))
     rc, out = sh("git -C %s worktree add --detach %s HEAD" % (REPO, WT))
@@ -35,7 +36,7 @@ def main():
     for d in sorted(os.listdir(os.path.join(VERIF, "seeded"))):
         if d.startswith("_incoming_"):
             pid = d.replace("_incoming_", "")
-            for x in "abcdef":
+            for x in "abcdefghijkl":
                 todo.append((pid, "%s-%s" % (pid, x), os.path.join(VERIF, "seeded", d, x)))
         elif redo and re.match(r"^C\d\d-[a-z]$", d):
             todo.append((d[:3], d, os.path.join(VERIF, "seeded", d)))
